@@ -7,6 +7,7 @@ mod httpstore;
 mod store;
 mod timeunit;
 mod udpcodec;
+mod validator;
 
 fn arg<T: std::str::FromStr>(args: &[String], name: &str, default: T) -> T {
     args.iter()
@@ -40,6 +41,7 @@ fn main() {
     match family {
         "udpstore" => store::run(&mut out, seed, cases, maxops, &replay, false),
         "udpcodec" => udpcodec::run(&mut out, seed, cases, &replay),
+        "validator" => validator::run(&mut out, seed, cases, &replay),
         "timeunit" => timeunit::run(&mut out, seed, cases),
         "httpstore" => store::run(&mut out, seed, cases, maxops, &replay, true),
         _ => {
